@@ -1137,7 +1137,8 @@ class Mps(MatrixProduct):
             self.evolve_config.tdvp_cmf_midpoint = False
             self.evolve_config.tdvp_cmf_c_trapz = False
             self.evolve_config.adaptive = False
-            environ_mps = self.evolve(mpo, evolve_dt / 2)
+            # `evolve_dt` was made real above: hand the half step on in imaginary time again
+            environ_mps = self.evolve(mpo, -1j * evolve_dt / 2 if imag_time else evolve_dt / 2)
             self.evolve_config = orig_config
         else:
             # mps at t=0 as environment
